@@ -457,7 +457,14 @@ class ArgGen:
         return lo, lo_strict, hi, hi_strict, minlen, maxlen
 
     def scalar(self, t, violate=False):
-        """-> (value, violated?)"""
+        """-> (value, violated?); a value meant to be valid is checked against every constraint (the bounds of a
+        generated schema may be unsatisfiable: then there is no valid argument)"""
+        v, viol = self._scalar(t, violate)
+        if not viol and not _satisfies(v, (t.get("Scalar") or {}).get("Constraints") or []):
+            raise Unsupported("unsatisfiable constraints")
+        return v, viol
+
+    def _scalar(self, t, violate=False):
         r = self.rng
         sc = t["Scalar"]
         k = sc["ScalarKind"]
@@ -698,6 +705,27 @@ class ArgGen:
         if want in ("nested", "nested-default"):
             return self.ir.has_builder(t)
         return True
+
+
+def _satisfies(v, cs):
+    for c in cs:
+        op, a = c["Op"], (c.get("Args") or [None])[0]
+        try:
+            if op in ("minLength", "maxLength"):
+                if not isinstance(v, str):
+                    continue
+                n = len(v)
+                ok = n >= a if op == "minLength" else n <= a
+            elif isinstance(v, bool) or not isinstance(v, (int, Decimal)):
+                continue
+            else:
+                x, y = Decimal(v), Decimal(a)
+                ok = {">=": x >= y, ">": x > y, "<=": x <= y, "<": x < y, "==": x == y, "!=": x != y}.get(op, True)
+        except Exception:
+            continue
+        if not ok:
+            return False
+    return True
 
 
 def _dnorm(d):
